@@ -20,14 +20,29 @@ class World:
         self.defs = {}
         self.hist = {}
         self.next_rid = 10
-        for s in range(1, self.nshards + 1):
+        # id alphabets: mostly small ids; sometimes ids that collide under the truncations code tends to apply to ids
+        # (logutil prints ids modulo 100000; 32-bit and 16-bit truncation), for shards and for replicas
+        mode = rng.random()
+        if mode < 0.70:
+            ids = list(range(1, self.nshards + 1))
+        elif mode < 0.85:
+            b = rng.randint(1, 9)
+            ids = [b + k * 100000 for k in range(self.nshards)]
+        elif mode < 0.93:
+            b = rng.randint(1, 9)
+            ids = [b + k * (1 << 32) for k in range(self.nshards)]
+        else:
+            b = rng.randint(1, 9)
+            ids = [b + k * 65536 for k in range(self.nshards)]
+        self.rid_stride = rng.choice([1, 1, 1, 100000, 1 << 32])
+        for s in ids:
             size = rng.choice([1, 3, 3, 3, 5]) if self.H >= 5 else rng.choice([1, 3, 3])
             size = min(size, self.H)
             addrs = rng.sample(self.hosts, size)
             members = {}
             for a in addrs:
                 members[self.next_rid] = a
-                self.next_rid += 1
+                self.next_rid += self.rid_stride
             self.defs[s] = dict(members=sorted(members), app=rng.randint(1, 3))
             self.hist[s] = [(rng.choice([1, 1, 3, size]), members)]
 
@@ -39,7 +54,7 @@ class World:
         free = [a for a in self.hosts if a not in m.values()]
         if free and (len(m) <= 1 or rng.random() < 0.55):
             m[self.next_rid] = rng.choice(free)
-            self.next_rid += 1
+            self.next_rid += self.rid_stride
         elif len(m) > 1:
             del m[rng.choice(sorted(m))]
         else:
@@ -330,4 +345,40 @@ def gen_chaos_trace(rng, length=50):
         else:
             ops.append(rng.choice([("LS",), ("LC",), ("LR", rng.choice(w.hosts)), ("LT", sorted(w.hist)), ("H",), ("LK", rng.choice([1, 2, 3, 4, 9])), ("SNAP",)]))
     ops += [("LS",), ("LC",), ("LT", sorted(w.hist)), ("H",), ("SNAP",)] + [("LR", a) for a in w.hosts]
+    return ops
+
+
+def with_lag(rng, ops, p=1.0):
+    """with probability p: a follower replica stops receiving ops at a random point (LAGSTART) and later catches up by installing
+    replica A's snapshot INTO its existing, older state (CATCHUP) - RecoverFromSnapshot on a non-fresh instance.  Afterwards it
+    receives every op again and must answer exactly like A (checked by the db engine for every later op)."""
+    if rng.random() >= p or len(ops) < 6:
+        return ops
+    cmd_pos = [i for i, op in enumerate(ops) if op[0] in ("T", "K", "S", "R", "Q")]
+    if len(cmd_pos) < 4:
+        return ops
+    a = rng.choice(cmd_pos[1:max(2, len(cmd_pos) * 2 // 3)])
+    later = [i for i in cmd_pos if i > a]
+    if not later:
+        return ops
+    b = rng.choice(later[:max(1, len(later) * 3 // 4)]) + 1
+    ops = list(ops)
+    ops.insert(b, ("CATCHUP",))
+    ops.insert(a, ("LAGSTART",))
+    # make sure the state is looked at after the catch-up even if the trace has few queries there
+    # (the SCHEDULER_CONTEXT lookup only where the profile already uses it: the kv profile writes arbitrary values under the regions key,
+    #  which that lookup cannot decode)
+    ops += ([("LC",)] if any(op[0] == "LC" for op in ops) else []) + [("H",), ("LS",)]
+    return ops
+
+
+def with_forks(rng, ops, k=2, p=1.0):
+    """with probability p: at up to k random points replica A is snapshotted and the snapshot installed into a NEW replica that receives
+    every later op and must answer exactly like A (state that is not carried by the snapshot shows up later)"""
+    if rng.random() >= p or len(ops) < 4:
+        return ops
+    pos = sorted(rng.sample(range(1, len(ops)), min(k, len(ops) - 1)), reverse=True)
+    ops = list(ops)
+    for q in pos:
+        ops.insert(q, ("FORK",))
     return ops
